@@ -24,7 +24,8 @@ PROOF_MODULES = ["PyTealV.Proofs.C02Spill", "PyTealV.Proofs.C02RecPoints", "PyTe
                  # whole-program code-generation theorem `genProg_correct` (Src.runProg vs the multi-routine graph machine)
                  "PyTealV.Proofs.C02GenMach", "PyTealV.Proofs.C02GenShape", "PyTealV.Proofs.C02GenPrim",
                  "PyTealV.Proofs.C02GenSem", "PyTealV.Proofs.C02GenSrc", "PyTealV.Proofs.C02GenCall",
-                 "PyTealV.Proofs.C02GenSpill", "PyTealV.Proofs.C02GenProg", "PyTealV.Proofs.C02Gen"]
+                 "PyTealV.Proofs.C02GenSpill", "PyTealV.Proofs.C02GenProg", "PyTealV.Proofs.C02Gen",
+                 "PyTealV.Proofs.C02Compile"]
 TRUSTED = [
     "Lean 4 kernel; axioms propext, Classical.choice, Quot.sound only",
     "AVM spec lean/PyTealV/Avm (callsub/retsub/proto/frame_dig/frame_bury frame rules written from the AVM specification)",
@@ -93,7 +94,7 @@ def run(tier: str) -> int:
             for k, v in g.stats.items():
                 gstats[k.split(":")[0]] += v
             gstats["programs:recursive" if cfg.recursive else "programs:nonrecursive"] += 1
-        first = True
+        first, cur_stage = True, "?"
         for opts in (settings if settings is not None else option_sets(ver, r, tier)):
             case = Case(d, p, ver, **opts)
             stats[f"compile:{case.res[0]}"] += 1
@@ -103,6 +104,7 @@ def run(tier: str) -> int:
                 first = False
                 fr = d.ask(f"fragmentr-sexp {ver} 0 {case.sexp}")
                 kv = dict(x.split("=", 1) for x in fr.split(" ") if "=" in x)
+                cur_stage = kv.get("stage", "?")
                 if "stage" in kv:
                     stats[f"genProg_correct:stage={kv['stage']}:in_fragment={kv.get('renamed')}"] += 1
                 else:
@@ -125,6 +127,11 @@ def run(tier: str) -> int:
                 stats["validateprog:" + verdict.split(" ")[0]] += 1
                 if verdict.startswith("valid") and "spilled=0" not in verdict:
                     stats["validateprog:valid with spill code"] += 1
+                if not fp:
+                    # do the hypotheses of the composed theorem `C02Compile.compile_correct_validated_prog`
+                    # (certificate accepted + certificate graphs = generator's + renamed program in the fragment) hold?
+                    comp = d.ask(f"composed-sexp {ver} 0 {case.teal.encode().hex()} {case.sexp}")
+                    stats[f"composed_theorem:{comp.split(' ')[0]}:stage={cur_stage}"] += 1
                 if bad is None and not verdict.startswith("valid"):
                     bad2 = exec_diff(case, r, 150 if tier == "quick" else 1500, stats)
                     if bad2 is None:
@@ -231,6 +238,7 @@ def run(tier: str) -> int:
                 "distinct = distinct emitted TEAL texts",
         "samples": samples or [{"note": "no recursive sample recorded"}],
         "family_cases": fam_cases,
+        "composed_theorem": {k.split(":", 1)[1]: v for k, v in sorted(stats.items()) if k.startswith("composed_theorem:")},
         "genProg_correct_fragment": {k.split(":", 1)[1]: v for k, v in sorted(stats.items()) if k.startswith("genProg_correct:")},
         "spill_tie": spill_cov,
         "distribution": {"constructs": dict(gstats.most_common(40)), "run": dict(sorted(stats.items()))},
